@@ -84,6 +84,10 @@ func (f *Frame) clone() *Frame {
 func (f *Frame) lookupLocal(st *State, name string) (Val, bool) {
 	for i, p := range f.fn.Params {
 		if p.Name() == name {
+			// in the entry state (old(...), function-level assigns) a parameter is its incoming value
+			if st != nil && st.X != nil && st == st.X.entry {
+				return f.params[i], true
+			}
 			// a parameter that is reassigned has a shadowing Alloc; prefer it
 			if a := f.findAlloc(name); a != nil {
 				if v, ok := f.readAlloc(st, a); ok {
@@ -592,6 +596,15 @@ func (x *Exec) step(st *State, fr *Frame, b *ssa.BasicBlock, idx int, prev *ssa.
 			}
 			if c == False {
 				x.jump(st, fr, b, fb)
+				return
+			}
+			// syntactic pruning: a condition already decided on this path has only one feasible branch
+			if known, val := st.knows(c); known {
+				if val {
+					x.jump(st, fr, b, tb)
+				} else {
+					x.jump(st, fr, b, fb)
+				}
 				return
 			}
 			st2 := st.Clone()
